@@ -42,7 +42,15 @@ func VerifC04Routing() {
 		el, at = "div", "title" // control: an ordinary attribute takes the string route
 	}
 	el2, at2 := symNameCase("e", el), symNameCase("a", at)
-	src := "package p\n\ntempl t(u templ.SafeURL) {\n\t<" + el2 + " " + at2 + "={ u }></" + el2 + ">\n}\n"
+	attr := at2 + "={ u }"
+	want := 1
+	src := "package p\n\ntempl t(u templ.SafeURL, c, d bool) {\n\t<" + el2 + " " + attr + "></" + el2 + ">\n}\n"
+	if symBool("conditional") {
+		// the attribute in every branch of a conditional attribute block, nested once more in the else branch
+		want = 4
+		src = "package p\n\ntempl t(u templ.SafeURL, c, d bool) {\n\t<" + el2 + "\n\t\tif c {\n\t\t\t" + attr + "\n\t\t} else if d {\n\t\t\t" + attr +
+			"\n\t\t} else {\n\t\t\tif d {\n\t\t\t\t" + attr + "\n\t\t\t} else {\n\t\t\t\t" + attr + "\n\t\t\t}\n\t\t}\n\t></" + el2 + ">\n}\n"
+	}
 	tf, err := parser.ParseString(src)
 	if err != nil {
 		symCover("rejected")
@@ -54,12 +62,12 @@ func VerifC04Routing() {
 	code := buf.String()
 	symCover("generated")
 	isURLAttr := (verifLowerASCII(el2) == "a" && verifLowerASCII(at2) == "href") || (verifLowerASCII(el2) == "form" && verifLowerASCII(at2) == "action")
-	typed := strings.Contains(code, " templ.SafeURL = ")
-	symObserveBool("typed", typed)
+	typed := strings.Count(code, " templ.SafeURL = ")
+	symObserveInt("typed", typed)
 	if isURLAttr {
-		symAssert(typed, "href of <a> / action of <form> is assigned to a templ.SafeURL variable")
+		symAssert(typed == want, "every href of <a> / action of <form>, in whatever branch of a conditional attribute, is assigned to a templ.SafeURL variable")
 	} else {
-		symAssert(!typed && strings.Contains(code, "templ.EscapeString("), "ordinary attributes take the escaped-string route")
+		symAssert(typed == 0 && strings.Contains(code, "templ.EscapeString("), "ordinary attributes take the escaped-string route")
 	}
 	symAssert(strings.Contains(code, "templ.EscapeString("), "the attribute value is attribute-escaped on output")
 }
